@@ -35,7 +35,7 @@ pub assume_specification<T>[ Cursor::<T>::get_ref ](c: &Cursor<T>) -> (r: &T)
     ensures *r == cur_inner(*c),
 ;
 
-pub open spec fn be16(s: Seq<u8>, o: int) -> u16 { ((s[o] as u16) << 8 | (s[o + 1] as u16)) as u16 }
+pub open spec fn rd_be16(s: Seq<u8>, o: int) -> u16 { ((s[o] as u16) << 8 | (s[o + 1] as u16)) as u16 }
 pub open spec fn rd_be32(s: Seq<u8>, o: int) -> u32 { ((s[o] as u32) << 24 | (s[o + 1] as u32) << 16 | (s[o + 2] as u32) << 8 | (s[o + 3] as u32)) as u32 }
 
 // ---- R11: `c.read_u8().unwrap()` etc. --------------------------------------------------------------
@@ -52,7 +52,7 @@ pub fn vx_read_u16<T: AsRef<[u8]>>(c: &mut Cursor<T>) -> (r: u16)
     requires cur_pos(*old(c)) + 2 <= cur_data(*old(c)).len(),
     ensures cur_pos(*final(c)) == cur_pos(*old(c)) + 2, cur_inner(*final(c)) == cur_inner(*old(c)),
         cur_data(*final(c)) == cur_data(*old(c)),
-        r == be16(cur_data(*old(c)), cur_pos(*old(c)) as int),
+        r == rd_be16(cur_data(*old(c)), cur_pos(*old(c)) as int),
 { c.read_u16::<NetworkEndian>().unwrap() }
 
 #[verifier::external_body]
@@ -69,7 +69,7 @@ pub fn vx_try_read_u16<T: AsRef<[u8]>>(c: &mut Cursor<T>) -> (r: Result<u16, ()>
     ensures
         cur_inner(*final(c)) == cur_inner(*old(c)), cur_data(*final(c)) == cur_data(*old(c)),
         r is Ok <==> cur_pos(*old(c)) + 2 <= cur_data(*old(c)).len(),
-        r is Ok ==> cur_pos(*final(c)) == cur_pos(*old(c)) + 2 && r->Ok_0 == be16(cur_data(*old(c)), cur_pos(*old(c)) as int),
+        r is Ok ==> cur_pos(*final(c)) == cur_pos(*old(c)) + 2 && r->Ok_0 == rd_be16(cur_data(*old(c)), cur_pos(*old(c)) as int),
         r is Err ==> cur_pos(*old(c)) <= cur_pos(*final(c)) <= cur_pos(*old(c)) + 2,
 { c.read_u16::<NetworkEndian>().map_err(|_| ()) }
 
